@@ -700,6 +700,84 @@ def c18_monitor(ctx, res, fn, case, impl, model, spec):
 register('C18', [l0_suite(['crypto'], monitor=c18_monitor, quick=1500, thorough=40000)],
          ['blake2b, NaCl secretbox and the legacy open are supplied to the model as tables computed by the harness from golang.org/x/crypto and the verif hooks'])
 
+# ---------------------------------------------------------------- C20 (table definitions)
+def hexs(tok):
+    try: return bytes.fromhex(tok[1:]).decode('utf-8', 'replace')
+    except Exception: return tok
+
+def c20_suite(quick=300, thorough=8000):
+    def f(ctx):
+        res = Result('l2c', 'C20: column specifications generated as token lists (names, types, PRIMARY KEY, NOT NULL, UNIQUE, '
+                     'table-level PRIMARY KEY(...), malformed variants) and rendered in many spellings (case, white space, quoting), plus option '
+                     'lists (valid, unknown, duplicated, malformed numbers, missing "="); three probes per case: convertSchema vs model, '
+                     's3db.New vs model, and the real CREATE VIRTUAL TABLE through SQLite (PRAGMA table_info, NULL into a NOT NULL column, '
+                     're-creating the name after a failure) vs the specification; non-trivial = accepted definitions with >= 2 columns or '
+                     'rejected malformed ones')
+        outdir = os.path.join(ctx.out, f'l2c-{ctx.prop}')
+        n = ctx.n(quick, thorough)
+        r = harness(ctx, 'l2c', ctx.seed_for('l2c'), n, outdir, '')
+        if r.returncode != 0:
+            res.mismatches.append(dict(suite=res.name, case='harness failed', impl=(r.stderr or r.stdout)[-2000:], model=''))
+            return res
+        cases = open(f'{outdir}/cases.txt').read().splitlines()
+        impl = open(f'{outdir}/impl.txt').read().splitlines()
+        model = open(f'{outdir}/model.txt').read().splitlines()
+        def fail(c, a, what, shape=None, **kw):
+            raw = hexs(c.split(' # ')[-1].strip()) if ' # ' in c else ''
+            m = dict(suite=res.name, case=c[:1500], text=raw[:600], impl=a[:600], what=what, **kw)
+            kid = known_match(ctx, shape) if shape else None
+            if kid:
+                m['finding'] = kid; res.known_hits.append(m)
+            else:
+                res.property_failures.append(m)
+        for k, c in enumerate(cases):
+            res.evaluations += 1
+            fn = c.split()[1]
+            a = impl[k] if k < len(impl) else '<missing>'
+            mline, spec = split_spec(model[k] if k < len(model) else '<missing>')
+            at, mt = a.split()[1:], mline.split()[1:]
+            if (at[:1] == ['ok'] and c.count(' n ') >= 2) or at[:1] == ['err']:
+                res.nontrivial += 1
+            flags = [t for t in at if t in ('LEAK', 'NAME-TAKEN', 'NULL-ACCEPTED', 'NULL-REFUSED', 'TIERR')]
+            if fn == 'sqlc':
+                core = at[:1]
+            else:
+                core = [t for t in at if t not in flags]
+            if at[:1] == ['panic']:
+                fail(c, a, 'a malformed argument list makes s3db.New panic (inside SQLite this aborts the host process)')
+                continue
+            if core != mt:
+                # the model is the code as repaired; a difference is a property failure when the
+                # implementation accepts what must be rejected, rejects what is valid, or declares
+                # something else than specified
+                if at[:1] == ['panic']:
+                    fail(c, a, 'a malformed argument list makes s3db.New panic (inside SQLite this aborts the host process)')
+                elif at[:1] == ['ok'] and mt[:1] == ['err']:
+                    fail(c, a, 'a malformed or unsupported definition is accepted')
+                elif at[:1] == ['err'] and mt[:1] == ['ok']:
+                    fail(c, a, 'a valid definition is rejected')
+                elif at[:1] == ['ok'] and mt[:1] == ['ok'] and fn in ('schema', 'targs'):
+                    fail(c, a, 'the declared table differs from the specification: ' + hexs(at[-3] if fn == 'schema' else at[-3]), model=hexs(mt[-3]))
+                else:
+                    res.mismatches.append(dict(suite=res.name, case=c[:1500], impl=a[:800], model=mline[:800]))
+            if 'LEAK' in flags or 'NAME-TAKEN' in flags:
+                fail(c, a, 'a failed CREATE leaves the table registered (the name cannot be used again)')
+            if fn == 'sqlc' and at[:1] == ['ok'] and spec:
+                ti = at[1:]
+                ti = ti[:ti.index('NULL-ACCEPTED')] if 'NULL-ACCEPTED' in ti else ti
+                ti = ti[:ti.index('NULL-REFUSED')] if 'NULL-REFUSED' in ti else ti
+                if ti != spec:
+                    fail(c, a, 'PRAGMA table_info of the created table differs from the specification', spec=' '.join(spec)[:400])
+                if 'NULL-ACCEPTED' in flags:
+                    fail(c, a, 'a NULL is accepted in a column declared NOT NULL', shape='not_null_not_enforced')
+            if len(res.samples) < 3 and k % 41 == 7:
+                res.samples.append(dict(case=c[:400], impl=a[:300]))
+        res.stats = read_stats(outdir)
+        return res
+    return f
+
+register('C20', [c20_suite()], ['the lexical level (regular expressions, quoting, case folding) is exercised through rendering, not modelled; SQLite\'s own parsing of the declared CREATE TABLE text is observed through PRAGMA table_info'])
+
 # ---------------------------------------------------------------- L1 scheduled concurrency (C03)
 def parse_sched_case(case):
     t = case.split()
